@@ -177,7 +177,7 @@ def text(e, rng=None, parent=0, side=None):
         l = text(e[2], rng, p if assoc == "l" else p + 1, "l")
         r = text(e[3], rng, p + 1 if assoc == "l" else p, "r")
         s = "%s %s %s" % (l, SYM[e[1]], r)
-        need = parent > p or (parent == p and side is not None and ((assoc == "l" and side == "r") or (assoc == "r" and side == "l")))
+        need = parent > p      # `parent` is already the threshold: p for the operand on the associative side, p + 1 for the other one
         # g++ warns but accepts; keep text unambiguous for both tools
         if need or (rng is not None and rng.random() < 0.1) or e[1] == "comma":
             return "(%s)" % s
